@@ -39,6 +39,11 @@ pub fn run(spec: &Value, out_dir: &Path) -> Value {
                 }
             }
         }
+        // whiteout markers of the write layer at the start of the segment
+        if let Some(wo) = spec["init_wo"].as_array() {
+            let markers: Vec<Vec<String>> = wo.iter().map(pathv).filter(|p| !p.iter().any(|c| c.starts_with('!'))).collect();
+            sess.populate_markers(&markers);
+        }
     } else if let Some(tree) = spec["init_tree"].as_array() {
         let snap: Snap = tree
             .iter()
